@@ -353,14 +353,22 @@ Proof.
     + destruct (op_eqb o o'); [exact CB|]. destruct (binprec o <? binprec o'); [apply ok3_sparen|]; exact DB.
     + destruct (q' <=? binprec o); [exact PB | apply ok3_sparen; exact DB].
   - destruct V as (U & Vx). specialize (IHe Vx W (MOperand unary_prec)).
-    simpl. split; [|split].
-    + apply lay_ok_set_first_nl; [|apply IHe]. destruct (un_inner e); [destruct (v2_unary_merges o o0)|]; discriminate.
-    + simpl. unfold firstF. simpl. rewrite U. split; [reflexivity | discriminate].
-    + apply last_ok_cons. apply last_ok_set_first. apply IHe.
+    assert (B : ok3 ((Glue, TOp o) :: set_first (match un_inner e with
+                                                 | Some o' => if v2_unary_merges o o' then Blank else Glue
+                                                 | None => Glue
+                                                 end) (sp2 (MOperand unary_prec) e))).
+    { split; [|split].
+      + apply lay_ok_set_first_nl; [|apply IHe]. destruct (un_inner e); [destruct (v2_unary_merges o o0)|]; discriminate.
+      + simpl. unfold firstF. simpl. rewrite U. split; [reflexivity | discriminate].
+      + apply last_ok_cons. apply last_ok_set_first. apply IHe. }
+    cbn [sp2]. destruct m as [|o'|q]; try exact B.
+    destruct (unary_prec <? q); [apply ok3_sparen|]; exact B.
   - destruct V as (S & Vx). destruct W as [Wx Wl]. specialize (IHe Vx Wx (MOperand highest_prec)).
-    simpl. apply app_ok_nolayout; try exact IHe; try discriminate.
+    simpl. apply app_ok_nolayout; try exact IHe.
+    + destruct (is_int_atom e); discriminate.
     + unfold lay_ok. simpl. split; [intros E; discriminate E | exact I].
-    + change [(Glue, TP PERIOD); (Glue, l)] with ([(Glue, TP PERIOD)] ++ [(Glue, l)]).
+    + change [(if is_int_atom e then Blank else Glue, TP PERIOD); (Glue, l)]
+        with ([(if is_int_atom e then Blank else Glue, TP PERIOD)] ++ [(Glue, l)]).
       apply last_ok_app. apply last_ok_single. unfold lastL. rewrite S. rewrite orb_true_r. reflexivity.
   - destruct V as (Vx & Vi). destruct W as [Wx Wi].
     specialize (IHe1 Vx Wx (MOperand highest_prec)). specialize (IHe2 Vi Wi MDisp).
